@@ -121,39 +121,56 @@ def run(ctx: Ctx):
     gate(ctx)
 
 
-CHECK_ACCUM = {
-    # env -> loop-carried per-route accumulators of the checker that restart at the depot
-    "SDVRPEnv": ["used_cap"], "CVRPTWEnv": ["curr_time"], "MTVRPEnv": ["curr_time", "curr_length"],
-}
+CHECK_ACCUM_ENVS = ("CVRPEnv", "SDVRPEnv", "CVRPTWEnv", "MTVRPEnv")
+
+
+def _zero_init(n) -> bool:
+    init = nf.strip(n.args[1]) if len(n.args) > 1 and isinstance(n.args[1], vg.S) else None
+    return init is not None and nf._fn(init) in ("torch.zeros", "torch.zeros_like")
 
 
 def accumulators(ctx: Ctx):
-    """C06.e: in the checker's simulation loop the per-route accumulator is reset at the depot as
-    the LAST write of the iteration (after the step's contribution was added) -- sibling of C01.e."""
-    for cname, names in CHECK_ACCUM.items():
+    """C06.e: every per-route accumulator of a checker's simulation loop (a loop-carried value
+    that starts at zero and is updated from itself) restarts at the depot, in one of the
+    accepted forms: (i) `x[depot-condition] = 0` as the LAST write of the iteration, (ii) every
+    term containing the previous value carries the factor (action != depot), (iii) clamp at
+    zero with the depot's pseudo-demand -capacity (CVRP).  Sibling of C01.e; identified by
+    data flow, not by variable names."""
+    for cname in CHECK_ACCUM_ENVS:
         path = T.CHECK_ENVS[cname][0]
         env = EnvA(ctx.repo, path, cname)
         sl = env.slot("check_solution_validity")
-        for nm in names:
-            phs = [n for n in vg.LOOP_BODY if True]
-            found = None
-            for leafnode in _all_nodes(sl):
-                if leafnode.op == "loopvar" and leafnode.args[0] == nm and leafnode.id in vg.LOOP_BODY:
-                    found = leafnode
-                    break
-            if found is None:
-                from ..model import AnalysisError
-                raise AnalysisError(f"{cname}.check_solution_validity: loop-carried accumulator {nm} not found")
-            body = nf.strip(vg.LOOP_BODY[found.id])
-            ok, why = False, f"end-of-iteration value of {nm} is {vg.show(body, 3)}"
+        accs = []
+        for n in _all_nodes(sl):
+            if n.op == "loopvar" and n.id in vg.LOOP_BODY and _zero_init(n):
+                body = vg.LOOP_BODY[n.id]
+                if any(m is n for m in vg.walk(body, stop=lambda x, n=n: x is n and False)) and body is not n:
+                    accs.append(n)
+        if not accs:
+            from ..model import AnalysisError
+            raise AnalysisError(f"{cname}.check_solution_validity: no loop-carried accumulator found")
+        for k, acc in enumerate(sorted(accs, key=lambda n: str(vg.site_of(n) or n.args[0]))):
+            body = nf.strip(vg.LOOP_BODY[acc.id])
+            ok, form = False, "none"
             if body.op == "store" and vg.is_const(body.args[2]) and float(body.args[2].args[0]) == 0.0:
                 cond = body.args[1]
                 c = nf.cmpnf(cond) if isinstance(cond, vg.S) else None
-                is_depot = c is not None and c[1] == "==0" and "actions" in vg.params_of(cond)
-                contributes = any(n is found for n in vg.walk(body.args[0])) and nf.strip(body.args[0]) is not found
-                ok = is_depot and contributes
-                why = f"{nm} <- (previous + contribution) then [{vg.show(cond, 3)}] := 0 as the last write: depot-condition {is_depot}, contribution added before the reset {contributes}"
-            ctx.ob("C06.e", f"{cname}.checker:{nm}:depot-reset-last", ok, sl.where, why, construct=f"{sl.fi.qualname}:{nm}:depot-reset-order")
+                inner = body.args[0]
+                contributes = any(m is acc for m in vg.walk(inner)) and nf.strip(inner) is not acc
+                if c is not None and c[1] == "==0" and "actions" in vg.params_of(cond) and contributes:
+                    ok, form = True, "(i) reset at the depot as the last write"
+                elif c is not None and c[1] == ">0" and contributes and "vehicle_capacity" in vg.cells_of(inner):
+                    ok, form = True, "(iii) clamp at zero with depot pseudo-demand -capacity"
+            if not ok:
+                p = nf.poly(body)
+                with_prev = [fs for cf, fs in p.monos() if any(any(m is acc for m in vg.walk(a)) for a, _ in fs)]
+                if with_prev and all(any(nf.strip(a, True).op == "cmp" and nf.strip(a, True).args[0] == "!=0" and "actions" in vg.params_of(a) for a, _ in fs) and
+                                     any(a is acc for a, _ in fs) for fs in with_prev):
+                    ok, form = True, "(ii) previous value multiplied by (action != depot)"
+            ctx.ob("C06.e", f"{cname}.checker:accumulator#{k}:depot-reset", ok, sl.where,
+                   f"loop-carried accumulator (init 0) ends the iteration as {vg.show(body, 3)}: {form}" +
+                   ("" if ok else " -- it is not reset at the depot after the step's contribution was added (route loads/clocks leak into the next route or are cleared too early)"),
+                   construct=f"{sl.fi.qualname}:accumulator:{k}:depot-reset-order")
 
 
 def _all_nodes(sl):
